@@ -60,7 +60,8 @@ def generate(rng, tier):
     # the library's own handlers: every call of the device's error hook is counted
     for _ in range(60 if tier == "quick" else 1000):
         out.append(statuslib.gen_history(rng, rng.choice([4, 8, 16]), {"common": 4, "reg": 1, "fail": 2, "tst": 1.5, "cond": 0.3}))
-    return out
+    import stress
+    return out + stress.tree_stream(tier)
 
 
 def harness_line(c): return c
